@@ -30,6 +30,7 @@ def run(ctx):
     ctx.use_files("suit_generator/suit/types/common.py", "suit_generator/suit/manifest.py", "suit_generator/suit/security.py",
                   "suit_generator/input_output.py", "suit_generator/envelope.py", "suit_generator/cmd_parse.py", "suit_generator/cmd_create.py")
     key_agreement(ctx)
+    whole_item_decoded(ctx)
     dependency_classification(ctx)
     text_formats(ctx)
     union_order(ctx)
@@ -213,6 +214,31 @@ def key_agreement(ctx):
                 expected="no slicing", found=f"{bad}")
 
 
+def whole_item_decoded(ctx):
+    """The decoder entry point accepts a byte string only when the CBOR item spans all of it.  cbor2.loads ignores bytes after the first
+    item: a byte string whose prefix happens to be an integer / text item (raw content `05ab`, a UUID starting with 0x60) would be
+    parsed as that shorter item by the trial decoding of the unions and re-created shorter."""
+    R = ctx.report
+    repo = ctx.repo
+    R.rule("C03-D5 whole item decoded", 1, "deserialize_cbor raises when bytes remain after the decoded item")
+    de = repo.func(COMMON, "SuitObject.deserialize_cbor")
+    outs = Evaluator(repo, inline_depth=0).outcomes(de)
+    param = [a.arg for a in de.node.args.args if a.arg not in ("cls", "self")][0]
+    LEN = App("len", (P(param),))
+
+    def consumed_fact(c):
+        """a condition that relates the decoder's stream position to the length of the input"""
+        has_len = any(s_ == LEN for s_ in subterms(c))
+        has_pos = any(isinstance(s_, App) and s_.op in ("meth:tell", "meth:read", "meth:getbuffer") for s_ in subterms(c))
+        return has_len and has_pos or (has_pos and any(isinstance(s_, App) and s_.op == "meth:read" for s_ in subterms(c)))
+    rets = [o for o in outs if o.kind == "return"]
+    guarded = bool(rets) and all(any(consumed_fact(c) for c in o.conds) for o in rets)
+    refusing = any(o.kind == "raise" and any(consumed_fact(c) for c in o.conds) and isinstance(o.value, App) and "ValueError" in o.value.op for o in outs)
+    R.check("C03-D5 whole item decoded", guarded and refusing, "deserialize_cbor", mod=de.module, node=de.node, function=ctx.fq(de),
+            expected="the item is returned only when the decoder consumed len(cbstr) bytes; ValueError otherwise",
+            found="bytes after the first CBOR item are ignored (cbor2.loads semantics): a byte string with a decodable prefix is parsed as the shorter item")
+
+
 def dependency_classification(ctx):
     """An integrated member (text-string key of the envelope) is listed as a dependency exactly when its value decodes as an
     envelope: the description must name payloads as payloads and dependencies as dependencies."""
@@ -257,7 +283,7 @@ def text_formats(ctx):
     repo = ctx.repo
     ev = Evaluator(repo, inline_depth=0)
     io = repo.cls(IO, "InputOutputMixin")
-    R.rule("C03-D2a dumps keep key order", 3, "every json/yaml dump of the parse output passes sort_keys=False")
+    R.rule("C03-D2a dumps keep key order", 6, "every json/yaml dump of the parse output passes sort_keys=False")
     n = 0
     for f in io.methods.values():
         for node in walk_no_nested(f.node):
@@ -270,7 +296,12 @@ def text_formats(ctx):
                 ok = (isinstance(sk, ast.Constant) and sk.value is False) or (lib == "json" and sk is None)
                 R.check("C03-D2a dumps keep key order", ok, f"{ctx.fq(f)}: {lib}.{node.func.attr}", mod=f.module, node=node, function=ctx.fq(f),
                         expected="sort_keys=False (PyYAML sorts mapping keys by default)", found=f"sort_keys={ast.unparse(sk) if sk is not None else 'default'}")
-                bad_kw = [k for k in kw if k in ("default_flow_style", "canonical", "ensure_ascii", "indent") and False]
+                # emitter options beyond the reviewed ones change how scalars are written; the reader is not their inverse for every
+                # string (allow_unicode=True writes U+0085 raw, the scanner folds it into a blank; styles / custom dumpers likewise)
+                extra_kw = sorted(k for k in kw if k not in ("sort_keys", "indent", "width", "stream", "end"))
+                R.check("C03-D2a dumps keep key order", not extra_kw, f"{ctx.fq(f)}: {lib}.{node.func.attr} emitter options", mod=f.module, node=node,
+                        function=ctx.fq(f), expected="library defaults (plus sort_keys=False): the reader restores every string the writer emits",
+                        found=f"options {extra_kw}", key_extra="opts")
     if n < 3:
         raise AnalysisError("fewer than three dump calls found in InputOutputMixin")
     R.rule("C03-D2b format tables", 4, "serializer/deserializer tables name existing methods; json, yaml and suit occur in both")
